@@ -1,8 +1,196 @@
-import PilotaModel.Base.Sexp
-/-  Line-protocol verbs of track Thrift2 (stub: answers nothing yet). -/
+import PilotaModel.Thrift.Types
+import PilotaModel.Thrift.Binary
+import PilotaModel.Thrift.Compact
+import PilotaModel.Thrift.Skip
+import PilotaModel.Gen.Tables
+/-
+  Line-protocol verbs of track thrift2 (C07 skip, C09 totality):
+    skv <proto> <depth|-> <val> <val2|-> <trailing-hex>   skip an encoded value, read the next one
+    sk  <proto> <hex> <step>…                               script of reads / skips over raw bytes
+    skf <proto> <struct> <k>                                decode a struct field by field, skipping field k, reading its siblings
+    pfx <proto> <val>                                       every strict prefix of an encoding is rejected
+  protos: bin le cmp (in-memory), ubin (unchecked, iterative skipper), ubinf (unchecked, `skip` in
+  field context), abin acmp (async readers over a fully delivered stream).
+-/
 namespace Driver.Thrift2
-open Pilota
+open Pilota Pilota.Thrift
 
-def answer (_items : List Sexp) : Option String := none
+inductive SProto where | bin | le | cmp | ubin | ubinf | abin | acmp
+  deriving DecidableEq, Repr
+
+def SProto.of : String → Option SProto
+  | "bin" => some .bin | "le" => some .le | "cmp" => some .cmp | "ubin" => some .ubin
+  | "ubinf" => some .ubinf | "abin" => some .abin | "acmp" => some .acmp | _ => none
+
+def SProto.isCompact : SProto → Bool
+  | .cmp | .acmp => true
+  | _ => false
+
+/-- the bytes the matching writer produces for a value. -/
+def encFor (p : SProto) (v : TVal) : Bytes :=
+  match p with
+  | .le => Binary.enc .le v
+  | .cmp | .acmp => Compact.enc v
+  | _ => Binary.enc .be v
+
+structure St where
+  cr : Compact.CR := {}
+  bs : Bytes
+
+def maxDepth : Int := Gen.Tables.maximumSkipDepth
+
+/-- one skip call: the count the call reports (async: the bytes consumed) and the state after. -/
+def skipOne (p : SProto) (d : Option Int) (t : TType) (s : St) : Out (Nat × St) :=
+  let d := d.getD maxDepth
+  match p with
+  | .bin => match Skip.skip .be d t s.bs with
+    | .ok (n, r) => .ok (n, { s with bs := r })
+    | .err k => .err k | .panic m => .panic m | .fuel => .fuel
+  | .le => match Skip.skip .le d t s.bs with
+    | .ok (n, r) => .ok (n, { s with bs := r })
+    | .err k => .err k | .panic m => .panic m | .fuel => .fuel
+  | .cmp => match Skip.cskip d t s.cr s.bs with
+    | .ok (n, cr, r) => .ok (n, { cr := cr, bs := r })
+    | .err k => .err k | .panic m => .panic m | .fuel => .fuel
+  | .ubin | .ubinf => match Skip.iterSkip t s.bs with
+    | .ok (n, r) => .ok (n, { s with bs := r })
+    | .err k => .err k | .panic m => .panic m | .fuel => .fuel
+  | .abin => match Skip.askipBinary d t s.bs with
+    | .ok (_, r) => .ok (s.bs.length - r.length, { s with bs := r })
+    | .err k => .err k | .panic m => .panic m | .fuel => .fuel
+  | .acmp => match Skip.askipCompact d t s.cr s.bs with
+    | .ok (cr, r) => .ok (s.bs.length - r.length, { cr := cr, bs := r })
+    | .err k => .err k | .panic m => .panic m | .fuel => .fuel
+
+/-- one value read by the dynamic reading interpreter (async readers: over a fully delivered
+stream they return what the in-memory readers return). -/
+def readOne (p : SProto) (t : TType) (s : St) : Out (TVal × St) :=
+  match p with
+  | .le => match Binary.read .le t s.bs with
+    | .ok (v, r) => .ok (v, { s with bs := r })
+    | .err k => .err k | .panic m => .panic m | .fuel => .fuel
+  | .cmp | .acmp => match Compact.read t s.cr s.bs with
+    | .ok (v, cr, r) => .ok (v, { cr := cr, bs := r })
+    | .err k => .err k | .panic m => .panic m | .fuel => .fuel
+  | _ => match Binary.read .be t s.bs with
+    | .ok (v, r) => .ok (v, { s with bs := r })
+    | .err k => .err k | .panic m => .panic m | .fuel => .fuel
+
+inductive Step where
+  | read (t : TType) | skip (t : TType) | skipd (t : TType) (d : Int)
+
+def stepOf : Sexp → Option Step
+  | .list [.atom "read", t] => do let t ← t.asAtom >>= TType.ofName; pure (.read t)
+  | .list [.atom "skip", t] => do let t ← t.asAtom >>= TType.ofName; pure (.skip t)
+  | .list [.atom "skipd", t, d] => do let t ← t.asAtom >>= TType.ofName; let d ← d.asInt; pure (.skipd t d)
+  | _ => none
+
+def runScript (p : SProto) : List Step → St → List String → (List String × St × Option String)
+  | [], s, acc => (acc.reverse, s, none)
+  | .read t :: rest, s, acc =>
+    match readOne p t s with
+    | .ok (v, s') => runScript p rest s' (v.toSexp :: acc)
+    | o => (acc.reverse, s, some o.cls)
+  | .skip t :: rest, s, acc =>
+    match skipOne p none t s with
+    | .ok (n, s') => runScript p rest s' (toString n :: acc)
+    | o => (acc.reverse, s, some o.cls)
+  | .skipd t d :: rest, s, acc =>
+    match skipOne p (some d) t s with
+    | .ok (n, s') => runScript p rest s' (toString n :: acc)
+    | o => (acc.reverse, s, some o.cls)
+
+/-- `read_field_begin` on the reader of kind `p`. -/
+def fieldBegin (p : SProto) (s : St) : Out ((TType × Int) × St) :=
+  match p with
+  | .cmp | .acmp => match Compact.readFieldBegin s.cr s.bs with
+    | .ok (x, cr, r) => .ok (x, { cr := cr, bs := r })
+    | .err k => .err k | .panic m => .panic m | .fuel => .fuel
+  | .le => match Binary.readFieldBegin .le s.bs with
+    | .ok (x, r) => .ok (x, { s with bs := r })
+    | .err k => .err k | .panic m => .panic m | .fuel => .fuel
+  | _ => match Binary.readFieldBegin .be s.bs with
+    | .ok (x, r) => .ok (x, { s with bs := r })
+    | .err k => .err k | .panic m => .panic m | .fuel => .fuel
+
+/-- decode the fields of a struct, skipping field number `k` and reading the others. -/
+partial def fieldLoop (p : SProto) (k i : Nat) (s : St) (acc : List (Int × TVal)) (cnt : Option Nat) :
+    Out (Option Nat × List (Int × TVal) × St) :=
+  match fieldBegin p s with
+  | .ok ((t, id), s) =>
+    if t = .stop then .ok (cnt, acc.reverse, s)
+    else if i = k then match skipOne p none t s with
+      | .ok (n, s) => fieldLoop p k (i + 1) s acc (some n)
+      | .err e => .err e | .panic m => .panic m | .fuel => .fuel
+    else match readOne p t s with
+      | .ok (v, s) => fieldLoop p k (i + 1) s ((id, v) :: acc) cnt
+      | .err e => .err e | .panic m => .panic m | .fuel => .fuel
+  | .err e => .err e | .panic m => .panic m | .fuel => .fuel
+
+def skipField (p : SProto) (k : Nat) (input : Bytes) : Out (Option Nat × TVal × Nat) :=
+  let s0 : St := { bs := input }
+  let s0 := if p.isCompact then { s0 with cr := Compact.readStructBegin s0.cr } else s0
+  match fieldLoop p k 0 s0 [] none with
+  | .ok (cnt, fs, s) =>
+    if p.isCompact then match Compact.readStructEnd s.cr with
+      | .ok _ => .ok (cnt, .struct (TFields.ofList fs), s.bs.length)
+      | .err e => .err e | .panic m => .panic m | .fuel => .fuel
+    else .ok (cnt, .struct (TFields.ofList fs), s.bs.length)
+  | .err e => .err e | .panic m => .panic m | .fuel => .fuel
+
+def isErr {α} : Out α → Bool
+  | .err _ => true
+  | _ => false
+
+/-- how many of the strict prefixes of `bs` (including the empty one) `f` rejects with an error. -/
+def countRejected (bs : Bytes) (f : Bytes → Bool) : Nat :=
+  (List.range bs.length).foldl (fun acc k => if f (bs.take k) then acc + 1 else acc) 0
+
+def answer (items : List Sexp) : Option String := do
+  let verb ← items.head? >>= Sexp.asAtom
+  match verb with
+  | "skv" =>
+    let p ← items[1]? >>= Sexp.asAtom >>= SProto.of
+    let dA ← items[2]? >>= Sexp.asAtom
+    let d ← if dA == "-" then some none else (some <$> dA.toInt?)
+    let v ← items[3]? >>= TVal.ofSexp
+    let v2 ← match (items[4]? : Option Sexp) with
+      | some (Sexp.atom "-") => some none
+      | some x => some <$> TVal.ofSexp x
+      | none => none
+    let trailing ← items[5]? >>= Sexp.asHex
+    let e1 := encFor p v
+    let input := e1 ++ (match v2 with | some w => encFor p w | none => []) ++ trailing
+    match skipOne p d v.ttype { bs := input } with
+    | .ok (n, s) =>
+      match v2 with
+      | none => pure s!"ok {n} - rem={s.bs.length} len={e1.length}"
+      | some w => match readOne p w.ttype s with
+        | .ok (x, s') => pure s!"ok {n} {x.toSexp} rem={s'.bs.length} len={e1.length}"
+        | o => pure s!"{o.cls} after-skip {n}"
+    | o => pure o.cls
+  | "skf" =>
+    let p ← items[1]? >>= Sexp.asAtom >>= SProto.of
+    let v ← items[2]? >>= TVal.ofSexp
+    let k ← items[3]? >>= Sexp.asNat
+    match skipField p k (encFor p v) with
+    | .ok (cnt, w, rem) => pure s!"ok {match cnt with | some c => toString c | none => "-"} {w.toSexp} rem={rem}"
+    | o => pure o.cls
+  | "sk" =>
+    let p ← items[1]? >>= Sexp.asAtom >>= SProto.of
+    let input ← items[2]? >>= Sexp.asHex
+    let script ← (items.drop 3).mapM stepOf
+    let (outs, s, e) := runScript p script { bs := input } []
+    match e with
+    | some c => pure s!"{c} after={outs.length}"
+    | none => pure s!"ok {" ".intercalate outs} rem={s.bs.length}"
+  | "pfx" =>
+    let p ← items[1]? >>= Sexp.asAtom >>= SProto.of
+    let v ← items[2]? >>= TVal.ofSexp
+    let e := encFor p v
+    let rd := countRejected e fun b => isErr (readOne p v.ttype { bs := b })
+    let sk := countRejected e fun b => isErr (skipOne p none v.ttype { bs := b })
+    pure s!"ok len={e.length} read_rejected={rd} skip_rejected={sk}"
+  | _ => none
 
 end Driver.Thrift2
